@@ -398,6 +398,7 @@ def observe(lines):
     except Exception as e:
         o['cell'] = type(e).__name__
     o['sfac'] = [str(e).upper() for e in shx.sfac_table.elements_list]
+    o['elem_lookup'] = [[e, shx.elem2sfac(e), bool(shx.sfac_table.has_element(e))] for e in sorted(set(o['sfac']))]
     o['unit'] = [fl(x) for x in shx.unit.values] if getattr(shx, 'unit', None) else None
     o['fvars'] = [fl(x) for x in shx.fvars.as_stringlist] if hasattr(shx.fvars, 'as_stringlist') else [fl(v.fvar_value) for v in shx.fvars.fvars]
     o['symm'] = len(shx.symmcards._symmcards) if hasattr(shx.symmcards, '_symmcards') else None
@@ -419,7 +420,7 @@ def same(a, b):
     return a == b
 
 
-FIELDS = ['atoms', 'restraints', 'restraint_errors_empty', 'n_rem', 'titl_raw', 'scalars', 'cell', 'sfac', 'unit', 'fvars', 'symm', 'counts']
+FIELDS = ['atoms', 'restraints', 'restraint_errors_empty', 'n_rem', 'titl_raw', 'scalars', 'cell', 'sfac', 'elem_lookup', 'unit', 'fvars', 'symm', 'counts']
 
 
 def upper_objs(o):
@@ -469,8 +470,11 @@ def evaluate(ctx, cases, stream=None):
         if d is not None:
             instr = c.get('detail', {}).get('instr')
             sig = f'C05|{kind}|{d}'
+            va, vb = oa.get(d), ob.get(d)
+            if d == 'logical-lines':
+                va, vb = f'{len(oa["starts"])} instructions', f'{len(ob["starts"])} instructions (a line was swallowed or split)'
             what = (f'layout change "{kind}"{" on " + instr if instr else ""} changes the model: {d} differ '
-                    f'({json.dumps(oa.get(d), default=str)[:160]} vs {json.dumps(ob.get(d), default=str)[:160]})')
+                    f'({json.dumps(va, default=str)[:160]} vs {json.dumps(vb, default=str)[:160]})')
             ctx.fail(sig, what, dict(case=c, stream='pair', expected=oa.get(d), actual=ob.get(d),
                                      model=dict(norm_a=ra['spec'], norm_b=rb['spec'])), kind='property')
         # --- lines: implementation's logical lines vs model and spec, on both texts
@@ -565,7 +569,7 @@ def run(ctx):
     cases = []
     for kind, a, b in WITNESSES:
         cases.append(dict(kind=kind, detail=dict(witness=True), a=a, b=b, expect_spec_equal=True))
-    nfiles = ctx.budget(12, 150)
+    nfiles = ctx.budget(40, 150)
     per_kind = ctx.budget(2, 4)
     for fi in range(nfiles):
         f = make_file(rng)
